@@ -111,7 +111,7 @@ def repeatAttempts (count : Nat) (cut : Option Nat) (outs : List Outcome) : Nat 
 
 def resumeAttempts (k : Nat) : Nat := k + 1
 
-/-- Concat as documented: one source after the other until one fails -/
+/-- Concat: one source after the other until one fails -/
 def concatAttempts (n : Nat) (outs : List Outcome) : Nat := firstStop (failsAt outs) n
 
 def catchAttempts (outs : List Outcome) : Nat := if failsAt outs 0 then 2 else 1
@@ -133,9 +133,5 @@ def cutTerm (cut : Option Nat) (vs : List Int) (t : Option Term) : Option Term :
 
 /-- Catch whose first attempt fails: the fallback is subscribed while the first attempt is alive -/
 def Known.catchFallback (outs : List Outcome) : Bool := failsAt outs 0
-
-/-- Concat with a failing source that is not the last one: the remaining sources are still subscribed -/
-def Known.concatErrorBeforeLast (n : Nat) (outs : List Outcome) : Bool :=
-  (List.range (n - 1)).any (failsAt outs)
 
 end Ro.Resub.Spec
